@@ -127,7 +127,8 @@ def warmup_task(args):
                         err = float((tp.detach() - p.detach()).abs().max()) if p.numel() else 0.0
                         scale = max(float(tp.detach().abs().max()) if p.numel() else 0.0, 1e-30)
                         compared += 1
-                        if err > 1e-12 * scale:
+                        # float64: exact re-association of dyadic arithmetic; float32: rounding of two formulations of the same recurrence
+                        if err > (1e-12 if draw["dtype"] == "float64" else 1e-4) * scale:
                             mm.append((i + 1, f"g{gi+1}.torch_optim.{g['gtype']}.p{pi}", f"trajectory of torch.optim (max|.|={scale:.4g})", f"abs err {err:.3e}"))
                 elif not ob["usegraft"]:
                     live[gi] = False
@@ -191,6 +192,17 @@ def run(ctx):
         if gt == "sgd":
             g["mom0"] = 1
         tasks += sp.exhaustive_tasks(ctx, rng, [g], 4, (), (), redraws=0)
+    # float32 with torch's default-sized grafting epsilon and gradients at / below it: thresholds at the dtype's resolution show here
+    def small_eps(r):
+        g = make_group(r, r.choice(["adagrad", "rmsprop", "adam", "adamw"]))
+        g["graft"]["eps"] = r.choice([1e-8, 1e-10])
+        return [g]
+    f32 = sp.gen_tasks(ctx, rng, 4 if quick else 16, 5 if quick else 12, small_eps, 8, (), (), per_beh_redraw=False)
+    for d, _, _ in f32:
+        d.update(dtype="float32", pdtype="float32", grad_scales=rng.choice([[1e-7], [1e-8], [1.0, 1e-8, 1.0]]))
+        for k in ("grad_mode", "zero_steps"):
+            d.pop(k, None)
+    tasks += f32
     res4 = sp.pool_map(warmup_task, [(d, b) for d, b, _ in tasks])
     res = [(a, b, c) for a, b, c, _ in res4]
     compared = sum(x[3] for x in res4)
